@@ -1,15 +1,16 @@
 """C13 — schema inheritance: the type checks reach every class (P-tier: check_types, check_overrides, detect_field_overrides, is_subtype as a reduction, the extra-field policy of SchemaMagic.__new__); the external subtype judgement itself bounded."""
-from . import c16, pgschema, schema_core
+from . import c16, pgschema, schema_core, schemachecks
 
 
 def build(reg):
     specs = schema_core.build_c13(reg)
     specs += [x for x in pgschema.add_pgschema(reg) if 'C13' in x.props]  # the schema group's plugin check IS check_types
+    specs += schemachecks.add_schemachecks(reg)
     reg.set_class_home("PluginGroupLoad", "plugin/interface.py", "PluginGroup")
     specs += [c16.LoadPlugin()]  # ... and it runs on every plugin before it is initialised
     return {
         "verify": specs,
         "lemmas": [],
-        "trusted": ["issubclass / __bases__ / typing introspection are CPython's", "get_type_hints(cls) has an entry for every own annotation of cls"] + schema_core.T_SUBTYPE,
+        "trusted": ["issubclass / __bases__ / typing introspection are CPython's", "get_type_hints(cls) has an entry for every own annotation of cls"] + schema_core.T_SUBTYPE + schemachecks.T_SCHK + pgschema.T_PGS,
         "assumptions": ["check_allowed_types and the runtype-based judgement `issubclass(to_type(sub), to_type(base))` inside is_subtype are external; is_subtype is proved only to be a sound reduction to it (never True where the external judgement says no), and which shapes the judgement accepts is checked bounded"],
     }
